@@ -93,6 +93,12 @@ func (l *ltBroadcast) buildPendBlock(pd *pendBlock) bool {
 		// 交易组处理
 		group, _ := tx.GetTxGroup()
 		// 交易组中的其他交易, 依次添加到区块交易列表中
+		// a pooled group that does not fit into the remaining slots cannot belong to this block
+		if index+len(group.GetTxs()) > len(pd.block.GetTxs()) {
+			pd.block.GetTxs()[index] = nil
+			buildSuccess = false
+			continue
+		}
 		for j, gtx := range group.GetTxs() {
 			pd.block.GetTxs()[index+j] = gtx
 		}
